@@ -140,6 +140,8 @@ type Config struct {
 	MaxDepth  int  // deepest fork point below the tip chosen by the fork action
 	Invalid   bool // generate invalid blocks
 	Reverts   bool // generate RevertToPOW blocks (needs RevertToPOWStartHeight reachable)
+	// ExtraActions adds property-specific actions to the table.
+	ExtraActions func(m *Machine) map[string]func(*rapid.T)
 	// OnStep is the oracle; it may call m.* helpers.  Return false to stop the case.
 	OnStep func(m *Machine, s *Step) bool
 }
@@ -574,15 +576,32 @@ func isPow(n *node.Node) bool { return n.Arbiters.IsInPOWMode() }
 
 // Deliver hands a block to the node, updates the ideal model and calls the oracle.
 func (m *Machine) Deliver(b *Blk, op string) bool {
+	return m.step(b, op, nil)
+}
+
+// ForceReorganize calls the exported BlockChain.ReorganizeChain(block) (the
+// entry point meant for following a confirmed block on a side chain; it
+// ignores work) and hands the resulting Step to the oracle.
+func (m *Machine) ForceReorganize(b *Blk) bool {
+	return m.step(b, "ReorganizeChain", func() error { return m.N.Chain.ReorganizeChain(b.Block) })
+}
+
+func (m *Machine) step(b *Blk, op string, call func() error) bool {
 	if m.Dead {
 		return false
 	}
-	s := &Step{Op: op, Blk: b, Before: m.Tip, Duplicate: b.Delivered}
+	s := &Step{Op: op, Blk: b, Before: m.Tip, Duplicate: b.Delivered || call != nil}
 	s.LIHBefore = m.N.Arbiters.GetLastIrreversibleHeight()
 	s.PowBefore = isPow(m.N)
 	m.N.DrainEvents()
 	vk.Journal([]byte(fmt.Sprintf("%v", m.Ops)))
-	panicked, val, frame := vk.Catch(func() { s.InMain, s.Orphan, s.Err = m.N.Process(b.Block) })
+	panicked, val, frame := vk.Catch(func() {
+		if call != nil {
+			s.Err = call()
+			return
+		}
+		s.InMain, s.Orphan, s.Err = m.N.Process(b.Block)
+	})
 	if panicked {
 		s.Panic = fmt.Sprintf("%s: %v", frame, val)
 	}
@@ -591,7 +610,7 @@ func (m *Machine) Deliver(b *Blk, op string) bool {
 	s.PowAfter = isPow(m.N)
 
 	// ideal model: a sane block is known once all its ancestors are known
-	if !b.Delivered && b.Sane {
+	if call == nil && !b.Delivered && b.Sane {
 		b.Delivered = true
 		if b.Parent.Accepted && !b.Parent.Stranded {
 			queue := []*Blk{b}
@@ -930,6 +949,11 @@ func (m *Machine) Actions() map[string]func(*rapid.T) {
 			}
 			b := m.Build(t, BuildSpec{Parent: m.Tip, Kind: KindOK, Revert: true})
 			m.Deliver(b, "deliver")
+		}
+	}
+	if m.Cfg.ExtraActions != nil {
+		for k, f := range m.Cfg.ExtraActions(m) {
+			acts[k] = f
 		}
 	}
 	acts["fork-b"] = acts["fork"] // weight
